@@ -1,6 +1,6 @@
 (* C12: HAND-MAINTAINED allow-list for the generated panic-site table (Gen/PanicSites.v).
-   Every panic(...) / log.Fatal* / os.Exit / single-value type assertion / MustCompile(non-constant)
-   in the kustomize packages reachable from api/krusty must have an entry here, with the reason why
+   Every panic(...) / log.Fatal* / os.Exit / single-value type assertion / MustCompile(non-constant) /
+   call of a kustomize Must* or *OrDie helper in the kustomize packages reachable from api/krusty must have an entry here, with the reason why
    it may stay. A site without an entry breaks Gen_panic_sites_ok (Glob/PanicAllowProofs.v).
 
    Justification classes
@@ -31,6 +31,17 @@ Definition panic_allow : list allow := [
   (* ---- api/filters/refvar ---- *)
   mkAllow (mkSite "api/filters/refvar" "updateNodeValue" SkAssert 0)
     (Unreachable "default branch of a type switch over the value produced by MakePrimitiveReplacer, which only lets string/int/int32/int64/float32/float64/bool through (anything else is replaced by the string $(NAME)); all non-string cases precede the default");
+  (* ---- api/filters/nameref ---- *)
+  mkAllow (mkSite "api/filters/nameref" "getRoleRefGvk" SkMustCall 0)
+    (Unreachable "MustString = yaml encoding of a node that came out of the go-yaml decoder, used only to format the 'roleRef cannot be found' error; the encoder does not reject duplicate or non-string keys and only fails on node kinds the decoder does not produce (searched: unmarshalable objects x error paths, no failure)");
+  mkAllow (mkSite "api/filters/nameref" "getRoleRefGvk" SkMustCall 1)
+    (Unreachable "as ordinal 0, for the 'apiGroup cannot be found in roleRef' error");
+  mkAllow (mkSite "api/filters/nameref" "getRoleRefGvk" SkMustCall 2)
+    (Unreachable "as ordinal 0, for the 'kind cannot be found in roleRef' error");
+  mkAllow (mkSite "api/filters/nameref" "Filter.failureDetails" SkMustCall 0)
+    (KnownFinding "exit:log.Fatal:api/resource.(*Resource).MustYaml<-api/filters/nameref.Filter.failureDetails");
+  mkAllow (mkSite "api/filters/nameref" "Filter.failureDetails" SkMustCall 1)
+    (KnownFinding "exit:log.Fatal:api/resource.(*Resource).MustYaml<-api/filters/nameref.Filter.failureDetails");
   (* ---- api/internal/accumulator ---- *)
   mkAllow (mkSite "api/internal/accumulator" "newNameReferenceTransformer" SkFatal 0)
     (Unreachable "argument is ra.tConfig.NameReference after KustTarget.accumulateTarget merged builtinconfig.MakeDefaultConfig(), whose nameReference table is non-empty (Gen table); a merge never yields nil");
@@ -57,7 +68,7 @@ Definition panic_allow : list allow := [
   mkAllow (mkSite "api/resource" "(*Resource).enable" SkPanic 0)
     (KnownFinding "panic:api/resource.(*Resource).enable:explicit-wrong-node-kind");
   mkAllow (mkSite "api/resource" "(*Resource).MustYaml" SkFatal 0)
-    (KnownFinding "exit:log.Fatal:api/resource.(*Resource).MustYaml");
+    (KnownFinding "exit:log.Fatal:api/resource.(*Resource).MustYaml<-api/filters/nameref.Filter.failureDetails");
   mkAllow (mkSite "api/resource" "(*Resource).SetBehavior" SkPanic 0)
     (Unreachable "only called from Factory.makeOne with generator args, on the RNode freshly built by generators.MakeConfigMap/MakeSecret: metadata.annotations is absent or a mapping of strings built from a Go map, so SetAnnotations cannot fail");
   mkAllow (mkSite "api/resource" "(*Resource).PrevIds" SkPanic 0)
@@ -108,6 +119,8 @@ Definition panic_allow : list allow := [
     (KnownFinding "panic:kyaml/openapi.initSchema:explicit-invalid-schema-file");
   mkAllow (mkSite "kyaml/openapi" "initSchema" SkPanic 1)
     (InitOnly "parses the compiled-in kustomization API asset");
+  mkAllow (mkSite "kyaml/openapi" "initSchema" SkMustCall 0)
+    (InitOnly "kustomizationapi.MustAsset of the constant kustomizationAPIAssetName embedded in the package");
   mkAllow (mkSite "kyaml/openapi" "parseBuiltinSchema" SkPanic 0)
     (InitOnly "parses the compiled-in kubernetes swagger.pb of a version accepted by SetSchema (membership in OpenAPIMustAsset is checked there)");
   mkAllow (mkSite "kyaml/openapi/kubernetesapi/v1_21_2" "MustAsset" SkPanic 0)
@@ -122,15 +135,17 @@ Definition panic_allow : list allow := [
   mkAllow (mkSite "kyaml/yaml" "(*RNode).SetDataMap" SkFatal 1)
     (Unreachable "Clear(data) on the root of the freshly generated ConfigMap/Secret (a mapping): FieldClearer only fails on non-mapping receivers");
   mkAllow (mkSite "kyaml/yaml" "(*RNode).SetDataMap" SkFatal 2)
-    (Unreachable "LookupCreate(MappingNode, data|binaryData)+SetField on the freshly generated resource after the field was cleared: the OLD resource's maps are merged INTO the generated one, never the reverse");
+    (KnownFinding "exit:log.Fatal:kyaml/yaml.(*RNode).SetDataMap");
   mkAllow (mkSite "kyaml/yaml" "(*RNode).SetBinaryDataMap" SkFatal 0)
     (Unreachable "as SetDataMap ordinal 0");
   mkAllow (mkSite "kyaml/yaml" "(*RNode).SetBinaryDataMap" SkFatal 1)
     (Unreachable "as SetDataMap ordinal 1");
   mkAllow (mkSite "kyaml/yaml" "(*RNode).SetBinaryDataMap" SkFatal 2)
-    (Unreachable "as SetDataMap ordinal 2");
+    (KnownFinding "exit:log.Fatal:kyaml/yaml.(*RNode).SetBinaryDataMap");
   mkAllow (mkSite "kyaml/yaml" "(*RNode).MustString" SkPanic 0)
     (Unreachable "used to format error messages (filters/nameref roleRef errors, merge2 directive errors) about nodes that came out of the go-yaml decoder; the encoder only fails on node kinds the decoder does not produce");
+  mkAllow (mkSite "kyaml/yaml/merge2" "determineSmpDirective" SkMustCall 0)
+    (Unreachable "MustString of the patch node (decoder output) while formatting the 'invalid $patch directive' error: see nameref getRoleRefGvk ordinal 0");
   (* ---- kyaml/yaml/internal/k8sgen (vendored apimachinery label/validation helpers) ---- *)
   mkAllow (mkSite "kyaml/yaml/internal/k8sgen/pkg/util/sets" "StringKeySet" SkAssert 0)
     (Unreachable "no caller in the closure (vendored helper); documented to take map[string]T only");
